@@ -31,6 +31,24 @@ EncTD(e) ==
   ELSE <<2, 1, 20>> \o LE(e.k, 2) \o <<rev, 0, 0>> \o LE(Len(e.ws), 4) \o <<0, 0, 0, 0>>
        \o B(e.minb) \o B(e.maxb) \o FlatCs(e.mb, e.ws, 1)
 
+(* C15: the scale function bounds the weight of a centroid by where it sits. A centroid grows only by
+   merges that satisfy  w <= W min(q0 (1 - q0), q2 (1 - q2)) z / (2k),  z = 4 ln(W / 2k) + 24,  for its
+   edge quantiles q0, q2 at that time; later values only move W q (1 - q) z up, so the inequality holds
+   in every later state. Checked with a factor 2 of slack for the heavy centroids (>= 2% of W), in
+   thousandths rounded in the safe direction; ln x <= 0.6932 log2 x. *)
+RECURSIVE Lg2Up(_)
+Lg2Up(x) == IF x <= 1 THEN 0 ELSE 1 + Lg2Up((x + 1) \div 2)
+ZUp(w, k) == 24 + 3 * Lg2Up(w \div (2 * k) + 1)
+HeavyOK(e) ==
+  (e.k <= 2000) =>
+    \A i \in 1..Len(e.wq) :
+      LET w3 == e.wq[i][1]  a == e.wq[i][2]  b == e.wq[i][3]  z == ZUp(e.tw, e.k) IN
+      \* a single value is always a centroid of its own. (IF, not a disjunction: inside an action TLC
+      \* explores the disjuncts of every instance as alternatives, 2^n of them)
+      IF e.wq[i][4] = 1 THEN TRUE
+      ELSE /\ w3 * e.k * 1000 <= z * (a + 1) * (1000 - a)
+           /\ w3 * e.k * 1000 <= z * (b + 1) * (1000 - b)
+
 TInit == l = 1 /\ cnt = <<>>
 TrRun == IsEv("Run") /\ cnt' = <<>>
 
@@ -66,6 +84,7 @@ TrChk ==
                        /\ Ev.min = Ev.smin /\ Ev.max = Ev.smax)                        \* exact extremes
      /\ (On("C12") /\ "img" \in DOMAIN Ev) => B(Ev.img) = EncTD(Ev)
      /\ On("C15") => /\ Len(Ev.means) <= 2 * Ev.k + 30      \* bounded number of centroids
+                     /\ (n > 0 => HeavyOK(Ev))
                      /\ Ev.len <= 32 + 16 * (2 * Ev.k + 30)
                      /\ (n > 1 => Ev.len = 32 + 16 * Len(Ev.means))
                      \* exact to one sample at the extremes (when the extreme value was offered once: its
